@@ -87,6 +87,50 @@ def _history_worker(args):
     return ("literalised",) if literalised else ("ok",)
 
 
+VISIT_FREE = ("remove_barriers", "remove_measurements", "remove_includes")
+
+
+def _after_transform_worker(args):
+    """a module whose (invalid) program was changed by transformations that need no visit: after every rejected call
+    the module answers has_measurements / has_barriers as before the call and prints either what it printed before the
+    call or the original program, nothing else (no partial output of the interrupted visit).  Which of the two is
+    printed is left open on purpose: C17 says "prints the original program", which a rejected unroll() does literally
+    (the transformations disappear from the printed text) and a rejected validate() does by leaving the module as the
+    earlier calls made it; the two readings coincide when no transformation preceded the call (family (a))"""
+    import logging
+    logging.disable(logging.CRITICAL)
+    import pyqasm
+    src, pre, hist = args
+    try:
+        m = pyqasm.loads(src)
+        for t in pre:
+            getattr(m, t)()
+    except Exception:
+        return ("skip",)
+
+    def snap():
+        return (call(m, "dumps"), call(m, "has_measurements"), call(m, "has_barriers"))
+    before = snap()
+    original = call(pyqasm.loads(src), "dumps")
+    literalised = False
+    rejected = 0
+    for k, op in enumerate(hist):
+        got = call(m, op)
+        if got[0] != "error":
+            continue
+        rejected += 1
+        after = snap()
+        if after != before and after != (original,) + before[1:]:
+            if after[1:] == before[1:] and after[0][0] == "ok" and any(
+                    ref[0] == "ok" and only_declared_sizes_differ(after[0][1], ref[1]) for ref in (before[0], original)):
+                literalised = True
+                continue
+            return ("diff", k, op, after, before)
+    if rejected == 0:
+        return ("skip",)
+    return ("literalised",) if literalised else ("ok",)
+
+
 DECL_RE = re.compile(r"^\s*(qubit|bit)(\[[^\]]*\])?\s+(\w+);\s*$")
 LITERALISED = "C17-declaration-size-literalised-by-rejected-visit"
 
@@ -252,6 +296,13 @@ print(json.dumps(out, sort_keys=True))
 def run(tier, seed, replay):
     if replay:
         r = json.load(open(replay))
+        if r.get("kind") == "history-after-transform":
+            chk = common.Check(PROP, "quick", 0)
+            res = _after_transform_worker((r["source"], tuple(r["transformations"]), r["calls"]))
+            print("replay:", res)
+            if res[0] in ("diff", "literalised"):
+                chk.violation("replayed", r)
+            return chk.finish()
         if r.get("kind") == "history" and isinstance(r.get("calls", [None])[0], str):
             chk = common.Check(PROP, "quick", 0)
             res = _history_worker((r["source"], r["calls"]))
@@ -307,6 +358,28 @@ def run(tier, seed, replay):
             chk.violation("trace_%d" % nbad, {"kind": "history", "source": src, "calls": hist[: o[1] + 1],
                                               "what": "after earlier calls on a program that unroll() rejects, %s behaves differently from the same call on a module never processed" % o[2],
                                               "got": list(map(str, o[3])), "on_a_fresh_module": list(map(str, o[4]))})
+    # ---- (a') ... nor does it undo what earlier visit-free transformations did to the module
+    tsrc = [H + "qubit[2] q;\nbit[2] c;\nbarrier q;\nh q[0];\nc[0] = measure q[0];\nbarrier q[1];\nh q[5];\n",
+            H + "qubit[2] q;\nbit[2] c;\nfor int i in [0:1] { barrier q[i]; c[i] = measure q[i]; }\nrx(nope) q[0];\n",
+            "OPENQASM 2.0;\ninclude \"qelib1.inc\";\nqreg q[2];\ncreg c[2];\nbarrier q;\nmeasure q -> c;\nh q[3];\n"] + LATE_FAILURES[:6] + bad_progs[10:40]
+    tjobs = []
+    for k, src in enumerate(tsrc):
+        for pre in ((VISIT_FREE[k % 3],), ("remove_includes",), VISIT_FREE, ("remove_measurements", "remove_barriers")):
+            tjobs.append((src, pre, ["validate", "dumps", "unroll", "num_qubits"]))
+            tjobs.append((src, pre, [rnd.choice(OPS) for _ in range(rnd.randint(2, 5))]))
+    with multiprocessing.Pool(12) as pool:
+        tout = pool.map(_after_transform_worker, tjobs, chunksize=8)
+    lit_known = next((e for e in known if e["id"] == LITERALISED and e["status"] == "known"), None)
+    for (src, pre, hist), o in zip(tjobs, tout):
+        if o[0] == "literalised" and lit_known is not None:
+            chk.known("%s: %s" % (lit_known["id"], lit_known["what"]))
+        elif o[0] in ("diff", "literalised") and nbad < 7:
+            nbad += 1
+            chk.violation("undone_%d" % nbad, {"kind": "history-after-transform", "source": src, "transformations": list(pre), "calls": hist if o[0] != "diff" else hist[: o[1] + 1],
+                                               "what": "after a rejected call the module prints neither what it printed before the call nor the original program, or answers has_measurements / has_barriers differently" if o[0] == "diff" else
+                                                       "after a rejected visit dumps() prints register declarations with literal sizes",
+                                               "after_the_rejected_call": list(map(str, o[3])) if o[0] == "diff" else None,
+                                               "before_it": list(map(str, o[4])) if o[0] == "diff" else None})
     # ---- (b) modules never influence each other (same process, interleaved)
     progs = modcheck.programs(rnd, 30 if tier == "quick" else 150, dict(alias=4, call=3, custom=3))
     others = bad_progs[:10] + progs[:10]
@@ -412,7 +485,7 @@ def run(tier, seed, replay):
         "distinct_nontrivial": len(set((s, tuple(h)) for s, h in jobs)) + len(set((s, tuple(h)) for s, h, _ in ijobs)),
         "rule": "rejected-program histories (each call compared with the same call on a never-processed module), interleavings with other modules in one process, "
                 "the same histories in five fresh processes with different hash seeds, and rejected-program histories against the abstract machine; non-trivial: every history has >= 2 calls",
-        "rejected_program_histories": n_hist, "interleavings": len(ijobs) + len(cjobs) + len(sjobs), "became_rejected_mid_history": sum(1 for o in rout if o[0] == "ok-failed"), "hash_seeds": list(digests), "seed_digest": sorted(set(digests.values())),
+        "rejected_program_histories": n_hist, "rejected_calls_after_visit_free_transformations": sum(1 for o in tout if o[0] != "skip"), "interleavings": len(ijobs) + len(cjobs) + len(sjobs), "became_rejected_mid_history": sum(1 for o in rout if o[0] == "ok-failed"), "hash_seeds": list(digests), "seed_digest": sorted(set(digests.values())),
         "machine_histories_agree": sum(1 for c in codes if c == 0),
         "traces_validated_against_impl": sum(1 for o in out if o[0] == "ok") + sum(1 for o in iout if o[0] == "ok"),
         "samples": [{"source": jobs[0][0], "calls": jobs[0][1]}, {"source": ijobs[0][0], "calls": ijobs[0][1]}],
